@@ -27,12 +27,30 @@ pub struct TypeEntry {
     pub rt: fn(&SerializedValue) -> Result<SerializedValue, String>,
 }
 
+thread_local! {
+    /// set when serializing a decoded value by reference gives something else than serializing it by value
+    static REF_MISMATCH: std::cell::Cell<bool> = const { std::cell::Cell::new(false) };
+}
+
 fn rt<T>(sv: &SerializedValue) -> Result<SerializedValue, String>
 where
     T: aldrin_core::Deserialize<T> + aldrin_core::Serialize<T> + aldrin_core::tags::PrimaryTag<Tag = T> + aldrin_core::tags::Tag,
+    for<'a> &'a T: aldrin_core::Serialize<T>,
 {
     let v: T = sv.deserialize_as::<T, T>().map_err(|e| format!("{:?}", e))?;
-    SerializedValue::serialize_as::<T>(v).map_err(|e| format!("ser:{:?}", e))
+    let by_ref = SerializedValue::serialize_as::<T>(&v).map_err(|e| format!("ser-ref:{:?}", e));
+    let by_val = SerializedValue::serialize_as::<T>(v).map_err(|e| format!("ser:{:?}", e))?;
+    let same = match &by_ref {
+        Ok(r) => match (r.deserialize::<Value>(), by_val.deserialize::<Value>()) {
+            (Ok(a), Ok(b)) => value_text(&a) == value_text(&b),
+            _ => false,
+        },
+        Err(_) => false,
+    };
+    if !same {
+        REF_MISMATCH.with(|c| c.set(true));
+    }
+    Ok(by_val)
 }
 
 include!(concat!(env!("OUT_DIR"), "/typed_gen.rs"));
@@ -463,7 +481,12 @@ fn main() {
             Ok(sv) => sv,
             Err(_) => continue,
         };
+        REF_MISMATCH.with(|c| c.set(false));
         let res = catch_unwind(AssertUnwindSafe(|| (e.rt)(&sv)));
+        if REF_MISMATCH.with(|c| c.get()) {
+            writeln!(oracle, "FAIL C16 line={} serializing the decoded value by reference differs from serializing it by value type={} input={}", lines, e.name, hex(&sv)).unwrap();
+            fails += 1;
+        }
         let out = match res {
             Err(_) => {
                 writeln!(oracle, "FAIL C16 line={} panic in generated code type={} input={}", lines, e.name, hex(&sv)).unwrap();
